@@ -74,19 +74,14 @@ Theorem C10_no_width_warning_all_classified : forall (Q : Type) (sa sl : Q -> Z)
 Proof. exact run_test_no_width_warn_all_processed. Qed.
 Print Assumptions C10_no_width_warning_all_classified.
 
-(* invariant mode: the logs of setUp and of the invariant_* transaction are reported ... *)
-Theorem C10_invariant_flags_partial : forall r,
-  iv_setup r = true \/ iv_test r = true -> loop_bound_warned r = true.
-Proof. exact loop_bound_setup_and_test_reported. Qed.
-Print Assumptions C10_invariant_flags_partial.
-
-(* ... but NOT those of the transactions executed by run_target_function: each runs in a private
-   SEVM whose logs.bounded_loops nobody reads (regenerated constant target_warns_loop_bound = false).
-   The full statement `In true (iv_targets r) -> loop_bound_warned r = true` is false: *)
-Theorem C10_invariant_target_flags_refuted :
-  exists r, In true (iv_targets r) /\ loop_bound_warned r = false.
-Proof. exact loop_bound_in_target_not_reported. Qed.
-Print Assumptions C10_invariant_target_flags_refuted.
+(* invariant mode: one run = setUp, the target transactions executed by run_target_function (each in a
+   private SEVM) and the invariant_* transaction.  The LOOP_BOUND warning is printed exactly when the
+   bounded-loop log of at least ONE of these transactions is non-empty -- for every number of target
+   transactions (regenerated constants setup/test/target_warns_loop_bound) *)
+Theorem C10_invariant_flags : forall r,
+  loop_bound_warned r = true <-> (iv_setup r = true \/ In true (iv_targets r) \/ iv_test r = true).
+Proof. exact loop_bound_warned_iff. Qed.
+Print Assumptions C10_invariant_flags.
 
 Example C10_nonvacuous :
   (* symbolic condition at the bound: the true side is cut and logged; one below the bound it is followed *)
@@ -96,6 +91,6 @@ Example C10_nonvacuous :
   d_follow_false (jumpi_decide R_UNKNOWN R_UNKNOWN 0 0 1) = true /\
   (* concrete condition, --loop 0 *)
   d_follow_true (jumpi_decide R_SAT R_UNSAT 1000 0 0) = true /\
-  loop_bound_warned (mkInvRun false [false; true] true) = true /\
-  loop_bound_warned (mkInvRun false [false; true] false) = false.
+  loop_bound_warned (mkInvRun false [false; true] false) = true /\
+  loop_bound_warned (mkInvRun false [false; false] false) = false.
 Proof. repeat split; reflexivity. Qed.
